@@ -182,7 +182,7 @@ func (d *driver) planExh(n, cap int) {
 	}
 }
 
-var faultOps = []Fault{{"exists", 0, "before"}, {"fetch", 0, "before"}, {"fetch", 0, "mid"}, {"fetch", 0, "long"}, {"push", 0, "before"}, {"push", 0, "after"}}
+var faultOps = []Fault{{"exists", 0, "before"}, {"exists", 0, "race"}, {"fetch", 0, "before"}, {"fetch", 0, "mid"}, {"fetch", 0, "long"}, {"push", 0, "before"}, {"push", 0, "after"}}
 var cbOps = []string{"pre", "post", "skipped"}
 
 // planFaults: every single fault (operation, node, phase) and every single
@@ -276,8 +276,11 @@ func (d *driver) planCrafted(cap, k int) {
 	for _, cs := range craftedShapes() {
 		n := len(cs.Nodes) - 1
 		for _, dk := range []string{"memory", "file", "oci"} {
-			for c := 2; c <= 3; c++ {
-				d.dfs(Scenario{Nodes: cs.Nodes, API: "copygraph", Root: n, Dst0: []int{}, C: c, DstKind: dk}, cap)
+			for c := 1; c <= 3; c++ {
+				if c == 1 && dk != "file" {
+					continue
+				}
+				d.dfs(Scenario{Nodes: cs.Nodes, API: "copygraph", Root: n, Dst0: []int{}, C: c, DstKind: dk, PreFiles: dk == "file" && c == 3}, cap)
 			}
 		}
 		for node := 1; node <= n; node++ {
@@ -512,6 +515,7 @@ func (d *driver) planRandom(count int, ext bool) {
 				sc.Cancel = -1
 			}
 		}
+		sc.PreFiles = sc.DstKind == "file" && d.rng.Intn(2) == 0
 		if sc.DstKind == "file" && len(sc.Faults) == 0 && len(sc.CbErr) == 0 && sc.Cancel == 0 && d.rng.Intn(2) == 0 {
 			// a blob's stream breaks half-way while the file store is writing it; the retry must then complete.
 			// Preferably a blob the manifests name (title annotation): the file store writes those under their names.
